@@ -523,3 +523,20 @@ def world_stage(run, name, driver, spec, cfg, extra=None, slim=("id", "policy", 
         run.stage(name + "-witness", expected=nexp, witnessed=len(witnessed))
     run.stage(name, kind="world-model", driver=driver, spec=spec, systems=len(recs), explored=explored)
     return recs
+
+
+def mc_stage(run, name, spec, cfg, env=None, timeout=1200, workers=None, extra_args=None, gc_workers=True):
+    """R3: model-check a specification module on its own (a theorem about the design); any TLC error fails the run."""
+    wd = run.sub(name)
+    rc, out = tlc_mc(os.path.join(SPEC, "mc"), spec, cfg, wd, name, timeout=timeout, env_extra=env, workers=workers,
+                     extra_args=extra_args, coverage=(run.tier == "thorough"))
+    gen, dist = parse_states(out)
+    run.cov["states"] += dist
+    run.cov["transitions"] += gen
+    ok = "Model checking completed. No error has been found." in out or ("Finished in" in out and "Error" not in out)
+    if not ok:
+        v = parse_violation(out)
+        run.fail(dict(stage=name, op=spec, check=(v[0] if v else "tlc_error"), record={"spec": spec, "cfg": cfg, "env": env},
+                      detail="the specification itself violates its design-level property", trace=(v[2] if v else out[-4000:])))
+    run.stage(name, kind="spec-model-checking", spec=spec, states=dist, ok=ok)
+    return out
